@@ -103,6 +103,44 @@ def _dimless(obj):
     return out
 
 
+def _true_measure(obj, prop):
+    """Independent value of a size-like property for the object's current defining data (None if no oracle here)."""
+    import mpmath
+
+    from oracle import geom
+
+    mpmath.mp.dps = 30
+    if isinstance(obj, (S.Sphere, S.Ellipsoid)):
+        a, b, c_ = (obj.radius,) * 3 if isinstance(obj, S.Sphere) else (obj.a, obj.b, obj.c)
+        if prop == "volume":
+            return float(mpmath.mpf(4) / 3 * mpmath.pi * a * b * c_)
+        if prop == "surface_area":
+            return float(4 * mpmath.pi * mpmath.elliprg((mpmath.mpf(a) * b) ** 2, (mpmath.mpf(a) * c_) ** 2, (mpmath.mpf(b) * c_) ** 2))
+        return None
+    if isinstance(obj, (S.Circle, S.Ellipse)):
+        a, b = (obj.radius, obj.radius) if isinstance(obj, S.Circle) else (obj.a, obj.b)
+        if prop == "area":
+            return float(mpmath.pi * a * b)
+        if prop in ("perimeter", "circumference"):
+            big, small = max(a, b), min(a, b)
+            return float(4 * big * mpmath.ellipe(1 - (mpmath.mpf(small) / big) ** 2))
+        return None
+    if isinstance(obj, (S.ConvexSpheropolygon, S.ConvexSpheropolyhedron)):
+        return None
+    V = np.asarray(obj.vertices, dtype=float)
+    if isinstance(obj, S.Polygon):
+        o = geom.polygon_moments(V, np.asarray(obj.normal, dtype=float))
+        return {"area": o["area"], "perimeter": o["perimeter"]}.get(prop)
+    if len(V) > 40:
+        return None
+    F = [[int(i) for i in f_] for f_ in obj.faces]
+    if prop == "volume":
+        return geom.mesh_moments(V, F)["volume"]
+    if prop == "surface_area":
+        return sum(geom.face_area_centroid(V[f_])[0] for f_ in F)
+    return None
+
+
 def _run(case, rec):
     kind, prop = case["kind"], case["prop"]
     obj = call(build, case)
@@ -220,6 +258,11 @@ def _run(case, rec):
             rec.close("uniform_scaling_of_axes", L1[k], lam_obs * L0[k], 1e-12 * lam_obs * L0[k], sig)
         rec.close("centre_moved_with_scaling_or_kept", C1, C0, 0.0, sig) if np.array_equal(C1, C0) else \
             rec.close("centre_moved_with_scaling_or_kept", C1, lam_obs * C0, 1e-12 * lam_obs * (np.linalg.norm(C0) + 1e-300), sig)
+    # the assigned value must also be the *true* measure of the new geometry (independent oracles), so that a getter
+    # which is wrong in a self-consistent way does not make the setter look right
+    truth = _true_measure(obj, prop)
+    if truth is not None:
+        rec.close("target_is_true_measure", truth, target, 1e-9 * target, sig)
     # dimensionless descriptors preserved
     dl1 = _dimless(obj)
     for k, v in dl0.items():
